@@ -214,6 +214,20 @@ pub fn run(cx: &mut Ctx) {
             }
         }
         run_blocks(c, &blocks, "tables x flip x mode");
+        // the same grid with uniform selector words (all pixels pick the same modifier)
+        let mut blocks: Vec<[u8; 8]> = Vec::new();
+        for cw1 in 0..8u8 {
+            for cw2 in 0..8u8 {
+                for (msb, lsb) in [(0u16, 0u16), (0, 0xFFFF), (0xFFFF, 0), (0xFFFF, 0xFFFF)] {
+                    for flip in [false, true] {
+                        let diff = (cw1 + cw2) % 2 == 0;
+                        let rgb = if diff { [9 << 3, 21 << 3, 14 << 3] } else { [0x3C, 0xA5, 0x69] };
+                        blocks.push(pixels::etc1_make_block(diff, flip, cw1, cw2, rgb, msb, lsb));
+                    }
+                }
+            }
+        }
+        run_blocks(c, &blocks, "tables x uniform selector words");
     });
     cx.case("etc1_selectors", |c| {
         c.sit("etc1_selectors");
@@ -321,6 +335,35 @@ pub fn run(cx: &mut Ctx) {
                 }
                 c.nontrivial(fnv(b"rgb5a3-all"));
                 c.nontrivial(fnv(b"rgb5a3-all-2"));
+            }
+        }
+    });
+    // ---- RGB5A3: every small count of values (odd counts, counts that are 1..3 mod 4)
+    cx.case("rgb5a3_counts", |c| {
+        c.sit("rgb5a3_odd_and_small_counts");
+        let mut rng = Rng::new(77);
+        for n in (0..=17usize).chain([255, 256, 257, 1023, 1025]) {
+            let vals: Vec<u16> = (0..n).map(|_| rng.u32() as u16).collect();
+            let mut p = Vec::new();
+            for v in &vals {
+                p.extend_from_slice(&v.to_be_bytes());
+            }
+            match c.lib("ColorFormat::RGB5A3.decode", || ColorFormat::RGB5A3.decode(&p).map_err(|e| e.to_string())) {
+                None => {}
+                Some(Err(e)) => c.fail("decode_err", "decode_err:rgb5a3", format!("ColorFormat::RGB5A3.decode of {} values returned Err({})", n, e)),
+                Some(Ok(px)) => {
+                    if px.len() != 4 * n {
+                        c.fail("wrong_length", "wrong_length:rgb5a3", format!("{} bytes for {} values", px.len(), n));
+                        continue;
+                    }
+                    for (i, v) in vals.iter().enumerate() {
+                        let e = pixels::expect_rgb5a3(*v);
+                        if (0..4).any(|ch| !pixels::within(e[ch], px[4 * i + ch])) {
+                            c.fail("wrong_pixel", "wrong_pixel:rgb5a3", format!("RGB5A3 value {:#06x} (#{} of {}): got {:?}", v, i, n, &px[4 * i..4 * i + 4]));
+                            break;
+                        }
+                    }
+                }
             }
         }
     });
